@@ -146,6 +146,8 @@ def list_paths(node, path=()):
             out.append(path)
             for i, x in enumerate(node):
                 out += list_paths(x, path + (i,))
+        elif node and path and path[-1] == "script":
+            out.append(path)  # a recorded schedule (list of decisions): shortened like any other list
     return out
 
 
@@ -353,6 +355,16 @@ def report(b, prop, P, tier, seed, first, results, t0, args):
             exit_code = 2
             continue
         scenario = json.load(open(scen_path))
+        # kinds whose driver takes its decisions (delivery order, losses) from the run's PRNG report the
+        # decisions of a failing run: the replay file then carries the schedule itself, which the
+        # minimiser can shorten
+        script = (rr.get("sample") or {}).get("script") if isinstance(rr.get("sample"), dict) else None
+        if script and isinstance(scenario.get("body"), dict) and "script" not in scenario["body"]:
+            cand = copy.deepcopy(scenario)
+            cand["body"]["script"] = script
+            rs_ = run_scenario(b.worker, cand, tmpdir, "script")
+            if rs_.get("outcome") == "violation" and vclass(rs_, prop) == cls:
+                scenario = cand
         before = count_items(scenario)
         mini, tries = minimise(b.worker, scenario, prop, cls, tmpdir, budget_s=args.min_budget)
         # replay-verify twice in fresh processes
